@@ -82,8 +82,9 @@ impl HttpListener {
                     });
                 }
                 Err(e) => {
+                    // e.g. EMFILE while many clients are connected: keep the listener, try again shortly
                     error!("{} accept error: {} \ncause: {:?}", self.name, e, e.cause);
-                    return;
+                    tokio::time::sleep(std::time::Duration::from_millis(100)).await;
                 }
             }
         }
